@@ -4,6 +4,7 @@ import Kdf.Lemmas.Layout
 import Kdf.Lemmas.Scan
 import Kdf.Lemmas.ScanLinear
 import Kdf.Lemmas.ScanX64
+import Kdf.Model.OsPick
 /-!
 # C08 — OS-level translation shortcuts never contradict the page tables
 
@@ -248,4 +249,75 @@ example : ∀ as a sz, demoMem as a sz ≠ .error .ok := by
 example : (match lowestMapped (firstStep (.pgt 1 ⟨0x1000, 0⟩ 0 demoPf))
       (stepOnce extra demoMem (.pgt 1 ⟨0x1000, 0⟩ 0 demoPf)) demoPf 0xffff800000000000 0xffffc7ffffffffff with
     | .done st a _ => (st, a) | _ => (.nomem, 0)) = (.ok, 0xffff800000200000) := by decide
+end Kdf.Props.C08
+
+/-! ## Probing decisions of the set-up code (image stream, `ospick` correspondence) -/
+namespace Kdf.Props.C08
+open Kdf.Model.Pgt Kdf.Model.OsPick
+
+/-- `check_pae` only ever chooses a paging form under which the hardware walk of the start of the direct mapping ends
+at physical 0 — exactly what the DIRECT fast path (`va ↦ va - direct`, `direct_def`) gives there: the shortcut and the
+chosen hardware form agree at the probe address; a hierarchy that merely parses as a complete walk (to some other
+address) is not accepted. -/
+theorem check_pae_sound (extra : Extra) (memPae memNon : Mem) (root : FullAddr) (direct : Nat) :
+    (checkPae extra memPae memNon root direct = some 52 →
+       walkAddr extra memPae root ia32PfPae direct = some (direct - direct)) ∧
+    (checkPae extra memPae memNon root direct = some 32 →
+       walkAddr extra memNon root ia32Pf direct = some (direct - direct) ∧
+       walkAddr extra memPae root ia32PfPae direct ≠ some 0) ∧
+    (∀ b, checkPae extra memPae memNon root direct = some b → b = 52 ∨ b = 32) := by
+  unfold checkPae
+  refine ⟨?_, ?_, ?_⟩
+  · intro h; split at h
+    · simpa using ‹_›
+    · split at h <;> simp at h
+  · intro h; split at h
+    · simp at h
+    · split at h
+      · exact ⟨by simpa using ‹walkAddr extra memNon root ia32Pf direct = some 0›, ‹_›⟩
+      · simp at h
+  · intro b h; split at h
+    · left; simpa using h.symm
+    · split at h
+      · right; simpa using h.symm
+      · simp at h
+
+/-- `get_linux_pgt_root` (ia32) hands the CR3 value to the walk bit for bit (any 32-byte aligned PDPT address inside a
+page included); the `rootpgt` option has precedence, `swapper_pg_dir` is the last resort. -/
+theorem ia32_root_exact (opt : Option FullAddr) (cr3 sym : Option Nat) :
+    (∀ r, opt = some r → ia32LinuxRoot opt cr3 sym = r) ∧
+    (∀ c, opt = none → cr3 = some c → ia32LinuxRoot opt cr3 sym = ⟨c, MACHPHYS⟩) ∧
+    (∀ v, opt = none → cr3 = none → sym = some v → ia32LinuxRoot opt cr3 sym = ⟨v, KV⟩) := by
+  refine ⟨?_, ?_, ?_⟩
+  · intro r h; subst h; rfl
+  · intro c h1 h2; subst h1; subst h2; rfl
+  · intro v h1 h2 h3; subst h1; subst h2; subst h3; rfl
+
+/-- The Xen text probe: whatever is chosen is a 2 MiB mapping at one of the five known text addresses; and an image
+whose page tables map the 3.2-3.4 text address with 2 MiB pages is never taken for a 4.0 development snapshot, whatever
+is mapped at `XEN_TEXT_4_0dev` (which lies in the ioremap area of those versions). -/
+theorem xen_text_pick_sound (is2m : Nat → Bool) :
+    (∀ a f, xenTextPick is2m = some (a, f) → is2m a = true ∧ (a, f) ∈ xenTextOrder) ∧
+    (is2m XEN_TEXT_3_2 = true → ∀ f, xenTextPick is2m ≠ some (XEN_TEXT_4_0dev, f)) ∧
+    (xenTextPick is2m = none → ∀ p ∈ xenTextOrder, is2m p.1 = false) := by
+  refine ⟨?_, ?_, ?_⟩
+  · intro a f h
+    unfold xenTextPick at h
+    exact ⟨by simpa using List.find?_some h, List.mem_of_find?_eq_some h⟩
+  · intro h32 f h
+    unfold XEN_TEXT_3_2 at h32
+    unfold xenTextPick xenTextOrder XEN_TEXT_4_4 XEN_TEXT_4_3 XEN_TEXT_4_0 XEN_TEXT_3_2 XEN_TEXT_4_0dev at h
+    simp only [List.find?, h32] at h
+    split at h
+    · simp at h
+    · split at h
+      · simp at h
+      · split at h
+        · simp at h
+        · simp at h
+  · intro h p hp
+    unfold xenTextPick at h
+    have := List.find?_eq_none.mp h p hp
+    simpa using this
+
 end Kdf.Props.C08
